@@ -104,3 +104,19 @@ Theorem C08_end_to_end_arithmetic : forall D has_ns hc rm rn rr,
       evaluate rm rn rr hc D has_ns q c = Val (VNum (arith_op o (as_number D m) (as_number D n))).
 Proof. exact C08_text_arithmetic. Qed.
 Print Assumptions C08_end_to_end_arithmetic.
+
+(* number(E), floor(E), ceiling(E) from the TEXT *)
+From XP.Proofs Require Import EndToEndNumFns.
+
+Theorem C08_end_to_end_number_floor_ceiling : forall D has_ns hc rm rn rr,
+  hash_ok (hc D) (all_nodes D) ->
+  forall re_ok ns fn F l,
+  In (fn, F) num1_table -> is_operand_px l -> xok (XCall fn (AOne l)) -> (1 + osize l <= max_build_depth)%nat ->
+  exists q,
+    compile re_ok (print_min (XCall fn (AOne l))) ns = Ok q /\
+    compile re_ok (print_sp (XCall fn (AOne l))) ns = Ok q /\
+    forall c, valid D c = true ->
+    exists m, opval D has_ns l c m /\ opnum D l m /\
+      evaluate rm rn rr hc D has_ns q c = Val (VNum (num1 F (as_number D m))).
+Proof. exact C08_text_number_floor_ceiling. Qed.
+Print Assumptions C08_end_to_end_number_floor_ceiling.
